@@ -50,7 +50,7 @@ def drive_and_validate(run, cases, shards):
 
 def check(tier):
     run = Run("C16", tier)
-    run.skip_key = ['name', 'kw', 'spell', 'role']
+    run.skip_key = ['name', 'kw', 'spell', 'role', 'variant']
     res = core.tlc("mc/MC_C16.tla", mc_cfg(run, MAXLEN[tier]), workers=8, coverage=True, timeout=3000, xmx="12g")
     core.check_coverage(res)
     run.add_tlc(res, f"Idents: all names up to {MAXLEN[tier]} characters over {{a,b,A,B,1,-}} x roles, every keyword x spelling x role")
@@ -61,14 +61,21 @@ def check(tier):
     run.cov["sampled_long_names"] = len(extra)
     cases = cases + extra
     events = drive_and_validate(run, cases, shards=8 if tier == "quick" else 16)
-    run.cov["evaluations"] = len(cases)
+    derived = [e for e in events if e["ev"] == "derived"]
+    events = [e for e in events if e["ev"] == "ident"]
+    run.cov["derived_identifier_cases"] = len(derived)
+    run.cov["derived_identifiers_judged"] = sum(len(e["idents"]) for e in derived if e["status"] == "ok")
+    run.cov["evaluations"] = len(cases) + len(derived)
     run.cov["distinct_nontrivial"] = len({(e["asn"], e["role"]) for e in events if e["status"] == "ok" and e["rust"] != e["asn"]})
     run.cov["exhaustive"] = True
     run.cov["rule"] = (f"TLC enumerates every legal ASN.1 name of up to {MAXLEN[tier]} characters over {{a,b,A,B,1,-}} in each role "
                        "{module, type, component, alternative, enumeral, value} and every Rust strict/reserved keyword (plus union, "
                        "macro_rules, gen) in lower/upper/title spelling in each role it can be written in; plus a seeded sample of "
                        "24-character names; non-trivial = compiled Ok and the Rust identifier differs from the ASN.1 name; distinct "
-                       "by (name, role). Named numbers and named bits generate no identifier and are not covered.")
+                       "by (name, role). For the roles type, component and alternative each name is also used as parent resp. member of an inline "
+                       "SEQUENCE with a DEFAULT, compiled with generate_from_impls: every identifier of that output (inner type items, default "
+                       "functions, From payload types) must be legal, and the inner item must carry the name. Named numbers and named bits "
+                       "generate no identifier and are not covered.")
     step = max(1, len(events) // 8)
     run.cov["samples"] = [{"role": e["role"], "asn": e["asn"], "rust": e["rust"], "annotation": e["annot"], "status": e["status"]}
                           for e in events[::step][:10]]
@@ -83,9 +90,9 @@ def replay(payload):
     ev = payload["event"]
     case = {k: ev[k] for k in ("name", "kw", "spell", "role")}
     events = drive_and_validate(run, [case], shards=1)
-    e = events[0]
-    print("input:   ", e["role"], e["asn"])
-    print("observed:", {k: e[k] for k in ("status", "rust", "has_annot", "annot", "parsed_ok", "detail")})
+    for e in events:
+        print("input:   ", e["role"], e["asn"], "(derived identifiers)" if e["ev"] == "derived" else "")
+        print("observed:", {k: e[k] for k in ("status", "rust", "has_annot", "annot", "parsed_ok", "detail", "idents", "inner", "src") if k in e})
     for what, x in run.violations:
         print("MISMATCH:", what)
     return 1 if run.violations else 0
